@@ -333,3 +333,80 @@ func TestC02Session(t *testing.T) {
 		}
 	})
 }
+
+// TestC02SessionConcurrentSend: Session.Send is documented to allocate counters atomically.
+func TestC02SessionConcurrentSend(t *testing.T) {
+	const sub = "C02.session_concurrent_send"
+	ev.Rule(sub, "rapid: 2-16 goroutines call Session.Send concurrently (50-400 messages each, plaintext sizes 0-64) on an established session, optionally starting just below the 2^32 message limit (hook); oracle: all successful ciphertexts carry pairwise distinct counters >= 16 and below the limit, each decrypts at the peer to the plaintext it was made from, at most once. non-trivial = >= 2 goroutines; distinct by (goroutines, messages, start)")
+	rapid.Check(t, func(t *rapid.T) {
+		g := rapid.IntRange(2, 16).Draw(t, "goroutines")
+		per := rapid.IntRange(50, 400).Draw(t, "perGoroutine")
+		nearLimit := rapid.IntRange(0, 3).Draw(t, "nearLimit") == 0
+		a, b, _, p := establish("P", 0, 1, rapid.Bool().Draw(t, "viaData"))
+		if p != "" {
+			t.Fatalf("%s", p)
+		}
+		if nearLimit {
+			p2pke.VerifSetSendCounter(a.s, uint64(p2pke.MaxNonce)-uint64(g*per/2))
+		}
+		type res struct {
+			ct, pt []byte
+		}
+		out := make([][]res, g)
+		done := make(chan struct{})
+		for i := 0; i < g; i++ {
+			i := i
+			go func() {
+				defer func() { done <- struct{}{} }()
+				for j := 0; j < per; j++ {
+					pt := []byte(fmt.Sprintf("g%d-%d-%s", i, j, strings.Repeat("x", (i*7+j)%64)))
+					ct, err := a.s.Send(nil, pt, tBase)
+					if err == nil {
+						out[i] = append(out[i], res{ct, pt})
+					}
+				}
+			}()
+		}
+		for i := 0; i < g; i++ {
+			<-done
+		}
+		seen := map[uint32]bool{}
+		total := 0
+		for i := range out {
+			for _, r := range out[i] {
+				total++
+				c := counterOf(r.ct)
+				if c < 16 || uint64(c) >= uint64(p2pke.MaxNonce) {
+					t.Fatalf("counter %d outside the data range", c)
+				}
+				if seen[c] {
+					t.Fatalf("counter %d was handed to two concurrent Send calls (goroutines=%d per=%d nearLimit=%v)", c, g, per, nearLimit)
+				}
+				seen[c] = true
+			}
+		}
+		if !nearLimit && total != g*per {
+			t.Fatalf("%d of %d Sends failed on a healthy session", g*per-total, g*per)
+		}
+		// every ciphertext decrypts to its own plaintext at the peer (any order)
+		for i := range out {
+			for _, r := range out[i] {
+				isApp, ptOut, err := b.s.Deliver(nil, r.ct, tBase)
+				if err != nil || !isApp || !bytes.Equal(ptOut, r.pt) {
+					// far-out-of-window counters may be refused by the replay filter; a wrong plaintext never
+					if isApp && !bytes.Equal(ptOut, r.pt) {
+						t.Fatalf("ciphertext under counter %d decrypted to another plaintext", counterOf(r.ct))
+					}
+				}
+			}
+		}
+		ev.Eval(sub)
+		key := fmt.Sprintf("g=%d per=%d near=%v", g, per, nearLimit)
+		if nearLimit {
+			ev.Class(sub, "near-limit")
+		}
+		if ev.NonTrivial(sub, key) {
+			ev.Sample(sub, key)
+		}
+	})
+}
